@@ -275,10 +275,22 @@ func RuleID1(c *Ctx) {
 
 // ---------------------------------------------------------------- M1 serialisation covers the model
 
-var m1Exceptions = map[string]string{
-	"Catalog.rawUserTypes": "internal: the raw TYPE directives, consumed while building user types",
-	"Rules.index":          "derived: position index over data",
-	"Tag.Children":         "reserved: always an empty collection today (serialised only when non-empty - it is read)",
+// m1InternalField: fields that are not part of the exchange format, by type - a collection
+// of source directives (consumed while building the model) or a key->position index.
+func m1InternalField(f *types.Var) string {
+	t := f.Type()
+	if p, ok := t.(*types.Pointer); ok {
+		t = p.Elem()
+	}
+	if n, ok := t.(*types.Named); ok && n.Obj().Pkg() != nil && strings.HasSuffix(n.Obj().Pkg().Path(), "/directive") && !f.Exported() {
+		return "internal: source directives, consumed while the model is built"
+	}
+	if mp, ok := t.Underlying().(*types.Map); ok && !f.Exported() {
+		if b, ok := mp.Elem().Underlying().(*types.Basic); ok && b.Info()&types.IsInteger != 0 {
+			return "derived: key -> position index over the data slice"
+		}
+	}
+	return ""
 }
 
 // RuleM1: hand-written MarshalJSON methods serialise every field.
@@ -376,8 +388,8 @@ func RuleM1(c *Ctx) {
 			switch {
 			case read[f]:
 				sc.Holds(key, c.P.Pos(f.Pos()), "read by MarshalJSON")
-			case m1Exceptions[key] != "":
-				sc.Exception(key, c.P.Pos(f.Pos()), m1Exceptions[key])
+			case m1InternalField(f) != "":
+				sc.Exception(key, c.P.Pos(f.Pos()), m1InternalField(f))
 			default:
 				sc.Violation(key, c.P.Pos(f.Pos()), "the field is never read while serialising "+named.Obj().Name()+": what the document declares there does not reach the JSON")
 			}
